@@ -67,8 +67,6 @@ def build(U):
     ) -> (r: Result<(), MetaStoreError>)
         requires inv_epoch(*old(self).store), old(self).store.global_epoch < u64::MAX,
             vstd::std_specs::hash::obeys_key_model::<ClusterName>(), vstd::std_specs::hash::obeys_key_model::<String>(),
-            // the new cluster has at most 8192 chunks (precondition of proxy_resource_to_chunk_store: one slot per master at least)
-            node_num <= 32768,
         ensures epoch_contract(*old(self).store, *final(self).store),
             r is Err ==> store_same(*old(self).store, *final(self).store),
             r is Ok ==> exists|k: ClusterName| #![trigger final(self).store.clusters@[k]] !old(self).store.clusters@.contains_key(k) && final(self).store.clusters@.contains_key(k)
@@ -90,7 +88,7 @@ def build(U):
     f.before('Ok(())', "        proof { assert(self.store.clusters@.contains_key(cn)); assert(!old(self).store.clusters@.contains_key(cn)); assert(self.store.clusters@[cn].epoch == self.store.global_epoch); assert(self.store.clusters@[cn].config == default_cluster_config); assert(self.store.clusters@[cn].chunks@ == cs_new); }", nth=None)
     U.add_fn(f)
     U.add("}\n} // verus!\nfn main() {}\n")
-    U.trust('generate_free_chunks* (allocator, C12) by assumed contract: pure, returns only registered proxies and exactly the number of chunks asked for; proxy_resource_to_chunk_store through its contract proved in unit chunk_init (text, precondition included, imported); precondition node_num <= 32768',
+    U.trust('generate_free_chunks* (allocator, C12) by assumed contract: pure, returns only registered proxies and exactly the number of chunks asked for; proxy_resource_to_chunk_store through its contract proved in unit chunk_init (text, precondition included, imported)',
             'NonZeroUsize::new by shim (Some iff n != 0)')
 
 MUST_FAIL = '''
